@@ -603,6 +603,19 @@ def exec_loop(eng, n, st: State):
     key = loop_key(eng, st, n)
     c = eng.active_contract
     spec = c.loops.get(key) if (c is not None and key) else None
+    if spec is None and c is not None and "*" in c.loops and key:
+        # a contract may give one invariant scheme for "every loop over a symbolic sequence" (written with `iterated_seq` and
+        # old(x, 'loop-entry')), so that it does not depend on how many loops the function has or in which order: loops whose
+        # iterable is concrete are still unrolled exactly
+        saved, eng.bounded_unroll = eng.bounded_unroll, 0
+        try:
+            return exec_loop_unrolled(eng, n, st.clone())
+        except Unsupported as e:
+            if "needs an invariant" not in str(e) and "symbolic-length" not in str(e):
+                raise
+        finally:
+            eng.bounded_unroll = saved
+        return exec_loop_invariant(eng, n, st, key, c.loops["*"])
     if spec is None:
         return exec_loop_unrolled(eng, n, st)
     return exec_loop_invariant(eng, n, st, key, spec)
@@ -792,11 +805,12 @@ def exec_loop_invariant(eng, n, st: State, key, spec):
         if len(entry_states) != 1:
             raise Unsupported("entry_hints must not fork")
         s = entry_states[0]
+        s.labels = dict(s.labels)
+        s.labels[key] = s.clone()
+        s.labels["loop-entry"] = s.labels[key]
         for cl in invs:
             g = eval_clause(eng, s, cl.node)
             oblige(eng, s, g, f"{key}/{cl.name}/entry", kind="auxiliary")
-        s.labels = dict(s.labels)
-        s.labels[key] = s.clone()
         # 2. havoc everything the loop may assign
         mods = assigned_names(n.body) | ({idx} if is_for else set())
         if is_for:
